@@ -342,9 +342,30 @@ func (w *World) RunLedger(o LedgerOpts) {
 		wKeys, wOpt, wUndel = 80, 60, 220
 	}
 	for len(w.Steps) < o.Steps && !w.Dead {
-		x := r.Intn(1000)
+		// weights are relative; block advancement keeps a fixed share (about one step in seven) in every profile
+		sum := 110 + 60 + 150 + wUndel + 40 + 40 + 25 + 25 + (wOpt + 10) + wOpt + wKeys + wSlash + 35 + wParam + wPrice + wAvsOpt + 10 + wEvid
+		x := r.Intn(sum + sum/6)
 		wt := func(n int) bool { x -= n; return x < 0 }
 		l := w.Last.Ledger
+		// directed: in the block whose BeginBlock closed a dogfood epoch, aim undelegations at operators whose
+		// opt-out matures in this very block (their queue has just been drained, EndBlock has not run yet)
+		if d := w.Last.Dog; d.EpochEnd && len(d.PendingOptOuts) > 0 && r.Intn(3) == 0 {
+			target := d.PendingOptOuts[r.Intn(len(d.PendingOptOuts))]
+			done := false
+			for _, e := range w.liveDelegations() {
+				if e.o.Addr() == target && !(e.s == w.Stakers[0] && e.o == w.Opers[0]) {
+					pos := Position(l, e.s.ID, e.a.ID, e.o.Addr())
+					if pos.IsPositive() {
+						w.Undelegate(e.s, e.a, e.o, w.amount(pos, false))
+						done = true
+						break
+					}
+				}
+			}
+			if done {
+				continue
+			}
+		}
 		switch {
 		case wt(110): // deposit
 			a := w.Assets[r.Intn(len(w.Assets))]
@@ -485,6 +506,16 @@ func (w *World) RunLedger(o LedgerOpts) {
 				continue
 			}
 			s := w.pickStaker(nst.Lz, false)
+			// prefer a staker that has pending NST undelegations (the decrease then walks through them)
+			for _, rec := range l.Undel {
+				if rec.AssetID == nst.ID && r.Intn(2) == 0 {
+					for _, cand := range w.Stakers {
+						if cand.ID == rec.StakerID {
+							s = cand
+						}
+					}
+				}
+			}
 			if s == nil {
 				continue
 			}
@@ -493,10 +524,41 @@ func (w *World) RunLedger(o LedgerOpts) {
 				continue
 			}
 			var d sdkmath.Int
-			if r.Intn(2) == 0 {
+			if r.Intn(3) == 0 {
 				d = w.depositAmount(nst, false)
 			} else {
-				d = w.amount(row.TotalDepositAmount.Add(row.TotalDepositAmount.QuoRaw(2)), false).Neg()
+				wd := row.WithdrawableAmount
+				pend, del := sdkmath.ZeroInt(), sdkmath.ZeroInt()
+				for _, rec := range l.Undel {
+					if rec.StakerID == s.ID && rec.AssetID == nst.ID {
+						pend = pend.Add(rec.ActualCompletedAmount)
+					}
+				}
+				for _, o := range w.Opers {
+					del = del.Add(Position(l, s.ID, nst.ID, o.Addr()))
+				}
+				frac := func(x sdkmath.Int) sdkmath.Int {
+					if !x.IsPositive() {
+						return sdkmath.ZeroInt()
+					}
+					return sdkmath.NewIntFromBigInt(new(big.Int).Rand(r, x.BigInt())).AddRaw(1)
+				}
+				switch r.Intn(5) {
+				case 0:
+					d = frac(wd)
+				case 1:
+					d = wd.Add(frac(pend)) // ends inside the pending undelegations
+				case 2:
+					d = wd.Add(pend)
+				case 3:
+					d = wd.Add(pend).Add(frac(del)) // reaches the delegated shares
+				default:
+					d = wd.Add(pend).Add(del).AddRaw(int64(1 + r.Intn(1000)))
+				}
+				if !d.IsPositive() {
+					d = sdkmath.OneInt()
+				}
+				d = d.Neg()
 			}
 			w.NSTUpdateStep(s, nst, d)
 		case wt(wParam): // governance changes the number of unbonding epochs
@@ -638,8 +700,8 @@ func (w *World) randomSlash(n int) {
 	}
 	power := int64(1 + r.Intn(400))
 	if vals, err := w.C.App.OperatorKeeper.GetOperatorOptedUSDValue(ctx, w.AVSAddr, op.Addr()); err == nil && r.Intn(2) == 0 {
-		if p := vals.ActiveUSDValue.TruncateInt64(); p > 0 {
-			power = p
+		if t := vals.ActiveUSDValue.TruncateInt(); t.IsInt64() && t.Int64() > 0 {
+			power = t.Int64()
 		}
 	}
 	var prop sdkmath.LegacyDec
